@@ -10,6 +10,7 @@ import QV.Proofs.ServerSignedTable
 import QV.Proofs.ServerAnswerFields
 import QV.Proofs.ServerAnswerMono
 import QV.Proofs.ServerAnswerTwoRun
+import QV.Proofs.ServerAnswerTwoRunI
 
 namespace QV.ServerContent
 open QV QV.Wire QV.Reader QV.Writer QV.Server QV.ServerSafety QV.ServerScan QV.ServerAnswer QV.Spec QV.ServerTsig
@@ -253,9 +254,12 @@ theorem signed_handler_eq_plain_allok (cfg : Cfg) (tr : Transport) (bufLen : Nat
 
 /-- **the signed run logs the same operations as the plain run** whenever the plain run succeeds
     (optional calls possibly dropped) and leaves room for the TSIG record — modulo the named
-    hypothesis `ScratchIndep` (Proofs/ServerAnswerTwoRun.lean).  The final writers agree up to the
+    hypothesis `ScratchIndepI` (Proofs/ServerAnswerTwoRunI.lean; the plain run starts from a state
+    that satisfies the writer's invariant, with a valid question hint).  The final writers agree up to the
     room, the TSIG slot, ARCOUNT + 1 and the octets at and above the cursor. -/
-theorem signed_run_eq_plain_run (hSI : ScratchIndep) (z : Zone.Zone) (qname : WName) (qtype : Nat) (s : State)
+theorem signed_run_eq_plain_run (hSI : ScratchIndepI) (z : Zone.Zone) (hz : ZoneOK z) (qname : WName)
+    (hq : qname.WF) (qtype : Nat) (hsub : z.apex <:+ fold qname) (s : State) (hi : Writer.I s)
+    (hh : HintOK Writer.Den s .qname qname)
     (mode : TsigMode) (rr : TsigRr) (hR : reservedLen mode rr ≤ s.available) (pt : PS)
     (h : inner z qname qtype ⟨s, []⟩ = (.ok (), pt))
     (hfit : pt.w.cursor + reservedLen mode rr ≤ s.available) (hcnt : pt.w.arcount + 1 ≤ 65535)
@@ -263,21 +267,17 @@ theorem signed_run_eq_plain_run (hSI : ScratchIndep) (z : Zone.Zone) (qname : WN
     ∃ ps' t0, inner z qname qtype ⟨withTsig s mode rr, []⟩ = (.ok (), ps') ∧ ps'.log = pt.log ∧
       modS (s.limit + reservedLen mode rr) (some ⟨mode, reservedLen mode rr, rr⟩) pt.w =
         lift (reservedLen mode rr) t0 ∧ Same ps'.w t0 := by
-  have h1 := (comPF_inner z qname qtype).1 (s.limit + reservedLen mode rr) (some ⟨mode, reservedLen mode rr, rr⟩)
-    ⟨s, []⟩ (by rw [h]; exact hcnt)
-  rw [h] at h1
-  simp only at h1
   have e : modS (s.limit + reservedLen mode rr) (some ⟨mode, reservedLen mode rr, rr⟩) s =
       lift (reservedLen mode rr) (withTsig s mode rr) := by
     unfold modS lift withTsig
     simp only
     congr 1
     omega
-  rw [e] at h1
-  obtain ⟨ps', t0, g1, g2, g3, g4, _⟩ := inner_two_run hSI z qname qtype (reservedLen mode rr) (withTsig s mode rr)
-    (withTsig s mode rr) [] _ (Same.refl _) rfl h1
-    (by show pt.w.cursor ≤ s.available - reservedLen mode rr; omega) hnp
-  exact ⟨ps', t0, g1, g2, g3, g4⟩
+  obtain ⟨ps', t0, g1, g2, g3, g4, _⟩ := (inner_safeX hSI z hz qname hq qtype hsub ⟨s, []⟩ hi hh).2.2
+    (s.limit + reservedLen mode rr) (some ⟨mode, reservedLen mode rr, rr⟩) (reservedLen mode rr)
+    (withTsig s mode rr) (withTsig s mode rr) () pt e.symm (Same.refl _) rfl h
+    (by show pt.w.cursor ≤ s.available - reservedLen mode rr; omega) hcnt hnp
+  exact ⟨ps', t0, g1, g2, g3.symm, g4⟩
 
 /-- the view of a successful answering run: TC clear, RCODE 0 or 3 -/
 theorem view_inner_ok (z : Zone.Zone) (qname : WName) (qtype : Nat) (w : State) (r : Out PErr Unit) (pt : PS)
@@ -318,13 +318,16 @@ theorem view_handle_err (z : Zone.Zone) (qname : WName) (qtype : Nat) (tr : Tran
 /-- **(b), model level: the signed run shows the same view as the plain run** — RCODE, AA, TC and the
     three sections — whenever neither response is truncated, the plain result (when the answering logic
     succeeds) leaves room for the TSIG record, and a plain SERVFAIL is a signed SERVFAIL (the three
-    guards of the audit's comparison clause).  Modulo `ScratchIndep`.  When the plain answering logic
+    guards of the audit's comparison clause).  Modulo `ScratchIndepI`.  When the plain answering logic
     succeeded, so did the signed one, with the same log, and the final writers agree up to the room,
     the TSIG slot, ARCOUNT + 1 and the octets at and above the cursor. -/
-theorem signed_handler_eq_plain (hSI : ScratchIndep) (cfg : Cfg) (tr : Transport) (bufLen : Nat) (req : Bytes)
+theorem signed_handler_eq_plain (hSI : ScratchIndepI) (cfg : Cfg) (tr : Transport) (bufLen : Nat) (req : Bytes)
     (hbuf : minBuf tr cfg.payload ≤ bufLen) (hpay : 512 ≤ cfg.payload) (id opcode : Nat) (rd : Bool)
     (q : Spec.DQuestion) (nx : Nat) (hsq : Spec.specQuestionAt req 12 = some (q.qname, q.qtype, q.qclass, nx))
-    (z : Zone.Zone) (qn : WName) (mode : TsigMode) (rr : TsigRr)
+    (z : Zone.Zone) (hz : ZoneOK z) (qn : WName) (hqwf : qn.WF) (hsub : z.apex <:+ fold qn)
+    (hiS : Writer.I (scanState cfg tr bufLen req id opcode rd q))
+    (hhS : HintOK Writer.Den (scanState cfg tr bufLen req id opcode rd q) .qname qn)
+    (mode : TsigMode) (rr : TsigRr)
     (hR : reservedLen mode rr ≤ (scanState cfg tr bufLen req id opcode rd q).available)
     (hnpP : (handleNonAxfrQueryL z qn q.qtype tr ⟨scanState cfg tr bufLen req id opcode rd q, []⟩).1 ≠ .panic)
     (hnpS : (handleNonAxfrQueryL z qn q.qtype tr
@@ -359,7 +362,7 @@ theorem signed_handler_eq_plain (hSI : ScratchIndep) (cfg : Cfg) (tr : Transport
           lift (reservedLen mode rr) t0 ∧ Same ps'.w t0 := by
     intro pt h
     obtain ⟨hf1, hf2⟩ := hfit pt h
-    obtain ⟨ps', t0, g1, g2, g3, g4⟩ := signed_run_eq_plain_run hSI z qn q.qtype SS mode rr hR pt h hf1 hf2 hnpSi
+    obtain ⟨ps', t0, g1, g2, g3, g4⟩ := signed_run_eq_plain_run hSI z hz qn hqwf q.qtype hsub SS hiS hhS mode rr hR pt h hf1 hf2 hnpSi
     exact ⟨handle_of_inner_ok z qn q.qtype tr _ _ h, ps', t0, handle_of_inner_ok z qn q.qtype tr _ _ g1, g2, g3, g4⟩
   refine ⟨?_, hok⟩
   rcases hr : inner z qn q.qtype ⟨SS, []⟩ with ⟨(u | e | _), pt⟩
